@@ -69,6 +69,45 @@ def bv_exhaustive(ctx, env, widths):
     return out
 
 
+def bv_wide(rng, env, widths, per_width):
+    """every binary / unary bit-vector operator on corner and random operands at WIDE widths (beyond 53 bits a
+    detour through a float loses bits; beyond 64 bits a detour through a machine word does)"""
+    m = env.formula_manager
+    out = []
+    for w in widths:
+        top = (1 << w) - 1
+        corners = [0, 1, 2, 3, top, top - 1, 1 << (w - 1), (1 << (w - 1)) - 1, (1 << (w - 1)) + 1,
+                   (1 << 53) + 1 if w > 54 else 5, (1 << 64) - 1 if w > 64 else 7, top // 3, top // 7]
+        corners = [c & top for c in corners]
+        bi = [m.BVAnd, m.BVOr, m.BVXor, m.BVAdd, m.BVSub, m.BVMul, m.BVUDiv, m.BVURem, m.BVSDiv, m.BVSRem,
+              m.BVLShl, m.BVLShr, m.BVAShr, m.BVComp, m.BVConcat, m.BVULT, m.BVULE, m.BVSLT, m.BVSLE]
+        un = [m.BVNot, m.BVNeg, m.BVToNatural]
+        pairs = [(a, b) for a in corners[:9] for b in corners[:9]]
+        pairs += [(rng.choice(corners), rng.getrandbits(w)) for _ in range(per_width)]
+        pairs += [(rng.getrandbits(w), rng.choice(corners + [rng.getrandbits(8) + 1])) for _ in range(per_width)]
+        shifts = (m.BVLShl, m.BVLShr, m.BVAShr)
+        for a, b in pairs:
+            f = rng.choice(bi)
+            if f in shifts:
+                # the Lean runtime computes x <<< n through Nat.shiftLeft: keep shift amounts small
+                # (amounts >= the width are covered: w, w+1, 2w, 1000)
+                b = rng.choice([0, 1, 2, w // 2, w - 1, w, w + 1, 2 * w, 1000]) & top
+            out.append(f(m.BV(a, w), m.BV(b, w)))
+        for f in (m.BVUDiv, m.BVURem, m.BVSDiv, m.BVSRem, m.BVMul):
+            for a in corners:
+                for b in (2, 3, 7, top // 3, (1 << (w - 1)) + 1):
+                    out.append(f(m.BV(a, w), m.BV(b & top, w)))
+        for a in corners:
+            for f in un:
+                out.append(f(m.BV(a, w)))
+            out.append(m.BVExtract(m.BV(a, w), w // 2, w - 1))
+            out.append(m.BVZExt(m.BV(a, w), 3))
+            out.append(m.BVSExt(m.BV(a, w), 3))
+            out.append(m.BVRol(m.BV(a, w), w // 3))
+            out.append(m.BVRor(m.BV(a, w), w - 1))
+    return out
+
+
 def run_ground(ctx, env, formulas, tag):
     lines, meta = [], []
     model = EagerModel({}, env)
@@ -286,6 +325,8 @@ def run(ctx):
     run_ground(ctx, genv, bv_exhaustive(ctx, genv, widths), "bv_exhaustive")
     ctx.extra["bv_exhaustive_widths"] = list(widths)
     run_ground(ctx, Environment(), array_equalities(genv, (1, 2, 3, 4)), "array_equalities")
+    wide = (53, 54, 64, 65, 128, 300) if ctx.tier == "quick" else (31, 32, 33, 53, 54, 63, 64, 65, 127, 128, 129, 256, 300, 512)
+    run_ground(ctx, Environment(), bv_wide(ctx.rng, genv, wide, 12 if ctx.tier == "quick" else 60), "bv_wide")
     env = Environment()
     uni = gen.Universe(env, theories=("bool", "int", "real", "bv", "str", "arr"))
     fg = gen.FormulaGen(ctx.rng, uni, max_depth=4, quant_prob=0.0)
